@@ -295,6 +295,11 @@ pub fn reverse_position_reply(
         // latest margin requirements
         let margin = previous_margin.checked_sub(swap.unrealized_pnl)?;
 
+        // a positive requirement means the closed position's equity is negative
+        if margin > Integer::zero() {
+            return Err(StdError::generic_err("Cannot close position - bad debt"));
+        }
+
         // create transfer message
         msgs.push(execute_transfer(deps.storage, &swap.trader, margin.value).unwrap());
 
